@@ -341,7 +341,7 @@ def run_shard(exe, job, prop, tier, seed, shard, odir, rdir):
             break
         res = open(out + '.res', errors='replace').read() if os.path.exists(out + '.res') else ''
         m = re.findall(r'^(?:HANG|CRASH)\t(\d+)$', res, re.M)
-        if rc in (41, 42) and m and restarts < (60 if tier == 'quick' else 4000):   # 100 hung or crashed cases per shard are evidence enough; the shard then ends without DONE (reported)
+        if rc in (41, 42) and m and restarts < (25 if tier == 'quick' else 4000):   # 100 hung or crashed cases per shard are evidence enough; the shard then ends without DONE (reported)
             start_case = int(m[-1]) + 1
             restarts += 1
             continue
